@@ -127,7 +127,9 @@ func c07Scenario(p c07Params) *explore.Scenario {
 	return sc
 }
 
-// c07Shutdown applies C02's classification per server handler.
+// c07Shutdown applies C02's classification per server handler: the session's
+// shutdown was entered while fewer commands had been counted as active than the
+// client has to send.
 func c07Shutdown(hooks []vrt.HookEvent, ncmd int) string {
 	received := map[string]int{}
 	for _, h := range hooks {
@@ -140,6 +142,22 @@ func c07Shutdown(hooks []vrt.HookEvent, ncmd int) string {
 		}
 	}
 	return ""
+}
+
+// hooksPresent reports whether the functions the classification observes still
+// exist under these names (a refactoring may have renamed them; the
+// classification then falls back to what is observable from outside).
+func hooksPresent(hooks []vrt.HookEvent) bool {
+	inc, shut := false, false
+	for _, h := range hooks {
+		if strings.HasSuffix(h.Name, "baseHandler.incrementActiveCommands:exit") {
+			inc = true
+		}
+		if strings.HasSuffix(h.Name, "baseHandler.shutdown") {
+			shut = true
+		}
+	}
+	return inc && shut
 }
 
 func c07Oracle(p c07Params, r ClientResult, servers, ids []string) (string, string) {
